@@ -23,7 +23,7 @@ from .. import core, tplgen
 from .. import render_common as rc
 
 PROP = "C06"
-THEOREMS = ["C06_full_partial_failed_tree_render_disturbs_nothing_older", "C06_full_partial_render_after_failed_render", "C06_full_partial_component_trees_leave_nothing", "unregister_unknown_is_noop", "empty_provider_leaves_nothing", "fault_at_index_only", "no_fault_without_request", "bookkeeping_error_keeps_world", "C06_full_partial_plain_nodes_touch_no_registry", "C06_full_partial_providers_leave_nothing", "C06_full_partial_leaf_component_leaves_nothing", "not_C06_full"]
+THEOREMS = ["C06_full_partial_any_history_disturbs_nothing_older", "C06_full_partial_returning_histories_leave_nothing", "C06_full_partial_failed_tree_render_disturbs_nothing_older", "C06_full_partial_render_after_failed_render", "C06_full_partial_component_trees_leave_nothing", "unregister_unknown_is_noop", "empty_provider_leaves_nothing", "fault_at_index_only", "no_fault_without_request", "bookkeeping_error_keeps_world", "C06_full_partial_plain_nodes_touch_no_registry", "C06_full_partial_providers_leave_nothing", "C06_full_partial_leaf_component_leaves_nothing", "not_C06_full"]
 
 PROFILE = dict(p_side=0.15, w_provide=2, w_inject=0.4, p_inject_default=0.8, w_comp=6, w_slot=3, p_required=0.0, p_malformed=0.0,
                p_default_flag=0.1, depth=3)
